@@ -178,6 +178,14 @@ def gen_cases(rng, tier):
             d = descs[0] if len(descs) == 1 or not r.chance(25) else descs[1]
             recs.append(_gen_rec(r, d))
         cases.append({"kind": "seq", "recs": recs, "stop": not r.chance(30)})
+    # wall clocks that occur twice (the hour repeated when a zone's clocks go back): fold selects the instant
+    DF = ["t/fold", [["datetime", "ts"], ["string", "s"]]]
+    for wall, zone in (([2020, 10, 25, 2, 30, 0, 0], "Europe/Amsterdam"), ([2021, 11, 7, 1, 30, 0, 5], "America/New_York"),
+                       ([2021, 4, 4, 1, 45, 0, 0], "Australia/Lord_Howe")):
+        for folds in ((0, 1), (1, 0), (1, 1)):
+            recs = [["rec", DF, [["dt", wall, ["zone", zone], f], V.S("x")],
+                     {"_generated": ["dt", wall, ["zone", zone], f]}] for f in folds]
+            cases.append({"kind": "seq", "recs": recs, "stop": True})
     # two types of one name that a 32-bit identifier cannot tell apart (colliding hash input), and two that differ in
     # one field only: the second type must be refused as a mixed record type, whatever the order
     r = rng.fork("samename")
@@ -301,6 +309,9 @@ def run_real(case):
             path = os.path.join(tmp, "out.avro")
             recs = [V.build_record(spec) for spec in case["recs"]]
             obs = {"written": [[_val(v) for v in rec._packdict().values()] for rec in recs], "errs": []}
+            # the instants the caller handed over (from the case, before any record existed)
+            obs["declared"] = [[_val(V.build(v)) if v[0] == "dt" and v[2] != "naive" else None for v in spec[2]]
+                               for spec in case["recs"]]
             w = RecordWriter("avro://" + path)
             for rec in recs:
                 try:
@@ -448,6 +459,11 @@ def oracle(case, obs):
                                 f"{e['msg']}")
         if "close" in obs:
             return f"close() raised {obs['close']['cls']}: {obs['close']['msg']}"
+        for i in accepted:
+            for j, dtok in enumerate(obs.get("declared", [[]] * len(specs))[i]):
+                if dtok is not None and obs["written"][i][j] != dtok:
+                    return (f"record {i}, field {specs[i][1][1][j][1]}: the timestamp handed over is the instant "
+                            f"{dtok[1]} us, the record written holds {obs['written'][i][j]}")
         for via in ("fast", "flow"):
             if "error" in obs[via]:
                 return f"reading the file via {via} raised {obs[via]['error']['cls']}: {obs[via]['error']['msg']}"
